@@ -600,11 +600,14 @@ package spine
 //   PEND(r,s,m)  : write m of peer s is waiting for verdicts (its timer is armed)
 //   TALLY(r,s,m) : approvals counted so far for it
 //@ define PEND(r, s, m) = has(r.pendingWriteApprovals, s) && has(r.pendingWriteApprovals[s], m) && r.pendingWriteApprovals[s][m] != nil
+//@ define PENDK(r, s, m) = has(r.pendingWriteApprovals, s) && has(r.pendingWriteApprovals[s], m)
 //@ define TALLY(r, s, m) = ite(has(r.writeApprovalReceived, s) && has(r.writeApprovalReceived[s], m), r.writeApprovalReceived[s][m], 0)
 
 // representation invariant: the inner maps of different peers are different objects
 //@ define WINV(r) = r.pendingWriteApprovals != nil && r.writeApprovalReceived != nil && (forall a string, b string :: has(r.pendingWriteApprovals, a) && has(r.pendingWriteApprovals, b) && a != b ==> r.pendingWriteApprovals[a] != r.pendingWriteApprovals[b]) && (forall a string, b string :: has(r.writeApprovalReceived, a) && has(r.writeApprovalReceived, b) && a != b ==> r.writeApprovalReceived[a] != r.writeApprovalReceived[b])
 
+// Race with the approval timeout (clauses tagged C12r, proved under the interference clause): between reading the timer and
+// re-acquiring muxResponseCB the timer of any pending write may fire (its entry disappears, the timer thread answers it).
 //@ func (*FeatureLocal).ApproveOrDenyWrite
 //@   requires r != nil && r.Feature != nil && r.address != nil && msg != nil && msg.RequestHeader != nil && msg.RequestHeader.MsgCounter != nil && msg.RequestHeader.AddressDestination != nil && msg.FeatureRemote != nil
 //@   requires WINV(r)
@@ -624,6 +627,8 @@ package spine
 //@   ensures[C12] denied: old(ACTIVE && DENY) ==> !PEND(r, SKI, MC) && TALLY(r, SKI, MC) == 0 && wapplied == old(wapplied) && (sendfails == old(sendfails) ==> respAppended(S, K) && rcls[S][K] == model.CmdClassifierTypeResult && answers(S, K, msg.RequestHeader, r.address) && rerr[S][K] == old(err.ErrorNumber))
 //@   ensures[C12] approved-last: old(ACTIVE && !DENY && LAST) ==> !PEND(r, SKI, MC) && TALLY(r, SKI, MC) == 0 && wapplied == old(wapplied) + 1 && wmsg[old(wapplied)] == msg
 //@   ensures[C12] approved-partial: old(ACTIVE && !DENY && !LAST) ==> PEND(r, SKI, MC) && TALLY(r, SKI, MC) == old(TALLY(r, SKI, MC)) + 1 && respSame && sendfails == old(sendfails) && wapplied == old(wapplied)
+//@   interference timer: at lock &r.muxResponseCB #2 modifies map(gomap[string]map[model.MsgCounterType]*time.Timer), map(gomap[model.MsgCounterType]*time.Timer) rely WINV(r) && forall s string, m model.MsgCounterType :: PENDK(r, s, m) ==> old(PENDK(r, s, m)) && r.pendingWriteApprovals[s][m] == old(r.pendingWriteApprovals[s][m])
+//@   ensures[C12r] expired-not-applied: !at(Lock, PEND(r, SKI, MC)) ==> wapplied == old(wapplied) && respSame
 //@   modifies map(gomap[string]map[model.MsgCounterType]*time.Timer), map(gomap[model.MsgCounterType]*time.Timer), map(gomap[string]map[model.MsgCounterType]int), map(gomap[model.MsgCounterType]int), @RESP, @PUBLISH, @WRITE, world, held, sendfails, timers
 
 // the approval timeout of one write: expires that write only, answers it with an error, applies nothing
@@ -636,7 +641,8 @@ package spine
 //@   let K = rn[S]
 //@   ensures[C12] own-entry-only: forall s string, m model.MsgCounterType :: !(s == ski && m == MC) ==> (PEND(r, s, m) <==> old(PEND(r, s, m))) && TALLY(r, s, m) == old(TALLY(r, s, m))
 //@   ensures[C12] expired: !PEND(r, ski, MC)
-//@   ensures[C12] one-error: sendfails == old(sendfails) ==> respAppended(S, K) && rcls[S][K] == model.CmdClassifierTypeResult && answers(S, K, msg.RequestHeader, r.address) && rerr[S][K] != model.ErrorNumberTypeNoError
+//@   ensures[C12] one-error: old(PENDK(r, ski, MC)) && sendfails == old(sendfails) ==> respAppended(S, K) && rcls[S][K] == model.CmdClassifierTypeResult && answers(S, K, msg.RequestHeader, r.address) && rerr[S][K] != model.ErrorNumberTypeNoError
+//@   ensures[C12] already-decided: !old(PENDK(r, ski, MC)) ==> respSame && sendfails == old(sendfails)
 //@   ensures[C12] not-applied: wapplied == old(wapplied)
 //@   modifies map(gomap[string]map[model.MsgCounterType]*time.Timer), map(gomap[model.MsgCounterType]*time.Timer), @RESP, outmisc, sendfails, held
 
